@@ -142,10 +142,12 @@ func (r *AdditiveOTReceiver) Round2(msg *AdditiveOTSendRound1Message) (AdditiveO
 		digest := prg.Digest()
 		result[i][0] = sample.Scalar(digest, r.group).Negate()
 		result[i][1] = sample.Scalar(digest, r.group).Negate()
-		for j := 0; j < len(msg.CombinedPads[j][0]); j++ {
+		// The bound is the length of the pad being masked (row i, not row j): with row j,
+		// batches of at most 32 elements index past the end of CombinedPads.
+		for j := 0; j < len(msg.CombinedPads[i][0]); j++ {
 			msg.CombinedPads[i][0][j] &= mask
 		}
-		for j := 0; j < len(msg.CombinedPads[j][1]); j++ {
+		for j := 0; j < len(msg.CombinedPads[i][1]); j++ {
 			msg.CombinedPads[i][1][j] &= mask
 		}
 		combinedPad0 := r.group.NewScalar()
